@@ -114,7 +114,8 @@ PROPS = {
     },
     "C19": {
         "mc": L0_QUICK + L0_THOROUGH,
-        "drivers": [drv("sign", "debug"), drv("sign", "release", tiers=T)],
+        "drivers": [drv("sign", "debug"), drv("sign", "release", tiers=T),
+                    drv("sign", "debug", shards={"quick": 6, "thorough": 10}, env={"HARNESS_ROOMY": "1"})],
     },
     "C17": {
         "mc": L0_QUICK + L0_THOROUGH + [algo("SmallAlgos.tla", "SmallAlgos_q.cfg"), algo("SmallAlgos.tla", "SmallAlgos_cal_ser_always_hi.cfg", expect="violation")],
